@@ -284,13 +284,13 @@ fn main() {
         checks::finish(&cli, rep, t0);
     }
     rep.oblige("priming_phase_evaluations", 1);
-    let mut depths: Vec<usize> = (1..=cli.t(64, 96)).collect();
+    let mut depths: Vec<usize> = (1..=cli.t(64, 160)).collect();
     if cli.thorough() {
         depths.extend([128, 256, 1000]);
     } else {
         depths.push(128);
     }
-    let seeds = cli.t(3u64, 30u64);
+    let seeds = cli.t(3u64, 100u64);
     let reps = vmon::par_for(cli.threads, depths.len() as u64, 1, |_| Report::new("C18", "w"), |rep, i| {
         let d = depths[i as usize];
         for s in 0..seeds {
@@ -318,7 +318,7 @@ fn main() {
     for r in reps {
         rep.merge(r);
     }
-    rep.exhaustive(format!("every depth 1..={} (plus {}): ratio-1 transparency, linearity at hostile positions during and after priming, reset equivalence; constant input for every depth >= 4 on a {}-point grid", cli.t(64, 96), if cli.thorough() { "128, 256, 1000" } else { "128" }, cli.t(2_000, 10_000)));
+    rep.exhaustive(format!("every depth 1..={} (plus {}): ratio-1 transparency, linearity at hostile positions during and after priming, reset equivalence; constant input for every depth >= 4 on a {}-point grid", cli.t(64, 160), if cli.thorough() { "128, 256, 1000" } else { "128" }, cli.t(2_000, 10_000)));
     rep.sample(J::obj().set("kind", J::s("ratio1")).set("depth", J::u(7)).set("expect", J::s("output k == source[k-7] within 1e-12 * peak, 0 for k < 7")));
     rep.sample(J::obj().set("kind", J::s("linearity")).set("depth", J::u(2)).set("positions", J::s("0, 2^-53, 0.5, 1-2^-53, 1/4, 1/3, 1e-300, random")).set("expect", J::s("I(aX+bY) == a I(X) + b I(Y) within (2d+8)*16u*(|a| |X| + |b| |Y|), after every push incl. priming")));
     checks::finish(&cli, rep, t0);
